@@ -42,6 +42,8 @@ def _value_for(draw, field, P, recs, depth, doms):
     if field == "k":
         return ["const", draw(st.integers(1, len(recs)))]
     if field in ("a", "b", "w"):
+        if chance(draw, 1, 8):
+            return ["const", enc(draw(st.booleans()))]       # a == True holds for 1 only, a == False for 0 only
         return ["const", draw(st.sampled_from(P["ints"]))]
     if field == "dbl":
         return ["const", 2 * draw(st.sampled_from(P["ints"]))]
@@ -50,7 +52,8 @@ def _value_for(draw, field, P, recs, depth, doms):
     if field == "tags":
         return ["const", enc(tuple(draw(st.lists(st.sampled_from(P["ints"]), max_size=2))))]
     if field == "o":
-        return ["const", enc(draw(st.sampled_from(P["anys"])))]
+        # (True / False are values like any other: o == False holds for False and 0, not for None, '' or ())
+        return ["const", enc(draw(st.sampled_from(P["anys"] + [True, False, False])))]
     # ref: a nested term or a variable
     kind = draw(st.sampled_from(["nested", "nested", "var"])) if depth > 0 else "var"
     if kind == "var":
